@@ -218,6 +218,10 @@ def run_check(prop, tier, runs_override=None):
     # different hash seed, must give identical event-log digests
     det = determinism_slice(prop, tier, jobs, job_digests, runs)
 
+    # configuration slice: part of the run is repeated in an interpreter
+    # started with -O (assert statements compiled out), a legitimate way to
+    # run picotool in which the properties must hold just the same
+    opt = optimized_slice(prop, tier, runs, plan)
     known = core.load_known_findings()
     n_viol = 0
     n_known = 0
@@ -252,7 +256,8 @@ def run_check(prop, tier, runs_override=None):
         if k2 is not None and core.match_known(v, known) is None:
             small, v2 = sc, v
         path = core.write_replay(prop, small, v2, {
-            'seed': seed, 'tier': tier, 'minimiser_executions': used})
+            'seed': seed, 'tier': tier, 'minimiser_executions': used,
+            'interpreter': {'optimize': int(sys.flags.optimize)}})
         code, out = core.replay_in_fresh_process(prop, path)
         if code != core.EXIT_VIOLATION:
             log('HARNESS-ERROR: replay %s did not reproduce in a fresh '
@@ -290,6 +295,7 @@ def run_check(prop, tier, runs_override=None):
                          'is over operation/fault sequences and environments',
         'components': COMPONENTS,
         'determinism': det,
+        'optimized_interpreter_slice': opt,
         'batch_digest': agg.batch_digest(),
         'known_findings_seen': n_known,
         'violations_reported': reported,
@@ -312,7 +318,10 @@ def run_check(prop, tier, runs_override=None):
     if det.get('status') == 'mismatch':
         log('HARNESS-ERROR: determinism slice mismatch: %s' % det)
         return core.EXIT_HARNESS
-    if n_viol:
+    if opt.get('status') == 'harness-error':
+        log('HARNESS-ERROR: -O slice: %s' % opt.get('why'))
+        return core.EXIT_HARNESS
+    if n_viol or opt.get('status') == 'violation':
         return core.EXIT_VIOLATION
     log('picosim: property %s held on everything explored' % prop)
     return core.EXIT_HELD
@@ -355,6 +364,48 @@ def determinism_slice(prop, tier, jobs, job_digests, runs, n=6):
             'fresh_interpreter_hashseed': '12345', 'mismatching_jobs': bad}
 
 
+def optimized_slice(prop, tier, runs, plan):
+    if os.environ.get('PICOSIM_NO_OPT') or sys.flags.optimize:
+        return {'status': 'skipped'}
+    k = int(plan.get('opt_runs', max(1, runs // 8)))
+    env = dict(os.environ)
+    env['PICOSIM_NO_DET'] = '1'
+    env['PICOSIM_NO_OPT'] = '1'
+    env['PICOSIM_RUNS'] = str(k)
+    env['PICOSIM_OPT_CHILD'] = '1'
+    env['PICOSIM_EVIDENCE_DIR'] = os.path.join(
+        core.scratch_base(), 'picosim-optev-%d' % os.getpid())
+    t0 = time.time()
+    try:
+        p = subprocess.run(
+            [sys.executable, '-O', os.path.join(_HERE, 'main.py'), prop,
+             '--tier', tier], env=env, stdout=subprocess.PIPE,
+            stderr=subprocess.STDOUT, timeout=3600)
+    except subprocess.TimeoutExpired:
+        return {'status': 'harness-error', 'why': 'timed out'}
+    finally:
+        import shutil
+        shutil.rmtree(env['PICOSIM_EVIDENCE_DIR'], ignore_errors=True)
+    out = p.stdout.decode('utf-8', 'replace')
+    res = {'runs_requested': k, 'wall_s': round(time.time() - t0, 1),
+           'interpreter': 'python -O'}
+    m = [ln for ln in out.splitlines() if ' runs in ' in ln]
+    if m:
+        res['summary'] = m[-1][:200]
+    if p.returncode == core.EXIT_VIOLATION:
+        for ln in out.splitlines():
+            if ln.startswith(('VIOLATION ', 'KNOWN-FINDING', '  class:',
+                              '  what:')):
+                log(ln if not ln.startswith('  ') else ln + '   [python -O]')
+        res['status'] = 'violation'
+    elif p.returncode == core.EXIT_HELD:
+        res['status'] = 'ok'
+    else:
+        res['status'] = 'harness-error'
+        res['why'] = out[-1200:]
+    return res
+
+
 def digest_jobs(prop, tier, spec):
     seed = core.get_seed()
     engine_name, _ = registry.CHECKS[prop]
@@ -378,6 +429,12 @@ def digest_jobs(prop, tier, spec):
 
 def run_replay(prop, path):
     doc = core.read_replay(path)
+    want_opt = int((doc.get('interpreter') or {}).get('optimize', 0))
+    if want_opt and not sys.flags.optimize:
+        log('picosim: this replay was recorded under python -O; re-running '
+            'the interpreter with -O')
+        sys.stdout.flush()
+        os.execv(sys.executable, [sys.executable, '-O'] + sys.argv)
     engine_name, _ = registry.CHECKS[prop]
     engine = registry.load_engine(engine_name)
     sc = doc['scenario']
